@@ -150,6 +150,11 @@ impl VerifSketch {
         self.0.verif_snapshot()
     }
 
+    /// Number of increments counted since the last aging step.
+    pub fn size(&self) -> u32 {
+        self.0.verif_size()
+    }
+
     pub fn sketch_capacity(max_capacity: u64) -> u32 {
         crate::common::sketch_capacity(max_capacity)
     }
